@@ -679,3 +679,59 @@ def run(ctx):  # noqa: F811
     # sign bookkeeping of nested sums (shared with C02)
     from .c02 import r02_8
     r02_8(ctx, ctx.model, rid="R01.5")
+
+
+# ---------------------------------------------------------------------------------------------------------------- R01.6
+# external element-wise primitives that do NOT broadcast their operands (fact table; ducc0 asserts equal shapes)
+NON_BROADCASTING = {"ducc0.misc.experimental.mul_conj", "ducc0.misc.experimental.div_conj"}
+
+
+def r01_6(ctx, m, rid="R01.6"):
+    """partial-space diagonals hold a reshaped diagonal with size-1 axes: every helper applied to it must broadcast"""
+    from ..util import cfg_of, calls_named, known_atoms
+    mod = m.module(OPS + "diagonal_operator")
+    ctx.rule(rid, "DiagonalOperator: a helper that hands the (possibly reshaped, size-1-axes) diagonal to an external primitive "
+                  "that does not broadcast (ducc mul_conj/div_conj) does so only under an operand shape-equality guard, and "
+                  "its other path is the broadcasting arithmetic expression - so adjoint modes of partial-space complex "
+                  "diagonals act like the other modes", floor=2)
+    ext = {n: fq for n, fq in mod.imports.items() if fq in NON_BROADCASTING}
+    seen = 0
+    for fi in mod.all_functions:
+        cfg = None
+        for c in walk_no_nested(fi.node):
+            if not (isinstance(c, ast.Call) and isinstance(c.func, ast.Name) and c.func.id in ext):
+                continue
+            cfg = cfg or cfg_of(fi)
+            seen += 1
+            ctx.saw_func(fi)
+            key = f"{fi.key}::{c.func.id} only on equally shaped operands"
+            hit = [n for n, x in calls_named(cfg, c.func.id) if x is c]
+            if not hit or len(c.args) != 2:
+                ctx.und(rid, key, f"call `{src(c)}` not located in the flow graph", fi, c)
+                continue
+
+            def base(e):
+                # a.val -> a ; a -> a
+                while isinstance(e, ast.Attribute) and e.attr in ("val", "_val"):
+                    e = e.value
+                return src(e)
+            a, b = base(c.args[0]), base(c.args[1])
+            ok = False
+            for t, pol in known_atoms(cfg, hit[0].id):
+                if pol and isinstance(t, ast.Compare) and len(t.ops) == 1 and isinstance(t.ops[0], ast.Eq):
+                    l, r = t.left, t.comparators[0]
+                    if all(isinstance(z, ast.Attribute) and z.attr == "shape" for z in (l, r)) and {base(l.value), base(r.value)} == {a, b}:
+                        ok = True
+            bc = any(isinstance(z, ast.Call) and call_name(z) in ("broadcast_to", "broadcast_arrays") for z in ast.walk(c))
+            ctx.check(rid, key, ok or bc, f"`{src(c)}` reached without a `{a}.shape == {b}.shape` guard", fi, c)
+    if not seen:
+        ctx.ok(rid, f"{mod.name}::no non-broadcasting primitive imported", "helpers use broadcasting arithmetic only", mod)
+        ctx.ok(rid, f"{mod.name}::no non-broadcasting primitive imported (2)", "", mod)
+
+
+_run_c01_b = run
+
+
+def run(ctx):  # noqa: F811
+    _run_c01_b(ctx)
+    r01_6(ctx, ctx.model)
